@@ -9,9 +9,24 @@ CLAIMED = {
  "C01": ("model_checking", "explicit-state BFS over API histories of the real code (fingerprint de-duplication), byte-array reference model",
          "Every history up to the stated depth over a collision-forcing alphabet (3 open files, 2 volumes on one device, 3 front ends, geometry grid) is executed on the real VolumeManager; every read, length, offset and EOF is compared with a byte-array model and every new state is read back completely.",
          MC_NOTE, "DESIGN.md section 5 C01"),
+ "C02": ("model_checking", "explicit-state BFS over mutation histories of the real code; at every state the medium snapshot is read by a fresh mount of the crate and by an independent FAT reader",
+         "Every create/open/write/flush/close/delete/mkdir history up to the depth bound is executed on the real code with a moving clock; after every call the raw medium is remounted by a fresh VolumeManager and walked by refat, and every flushed-and-unmodified file must show the flushed length, bytes, attribute and times, every untouched object must be byte- and entry-identical.",
+         MC_NOTE, "DESIGN.md section 5 C02"),
+ "C03": ("model_checking", "explicit-state BFS over mutation histories incl. failing calls; independent fsck of the raw image after every call and after flushing pending state",
+         "After every call (Ok or Err) of every history up to the bound, on volumes incl. full FAT16 roots and 0/1/2/3 free clusters, refat's fsck (chains, sharing, sizes, unique names, dot entries, end marker) must report no new problem; the same on a scratch replay with all open files flushed.",
+         MC_NOTE, "DESIGN.md section 5 C03"),
+ "C04": ("model_checking", "explicit-state BFS over mutation histories; write-log region check and byte-level diff explanation per call",
+         "For every call of every history up to the bound the logged device writes must lie inside the volume's partition and the right region, and every changed FAT entry / data byte must be explained by the call's own object (foreign chains, slack entries, reserved entries, FAT32 high nibble, neighbouring slots, bytes outside the requested range are violations).",
+         MC_NOTE + " A victim partition lies behind the volume; the device accepts out-of-volume writes so they are judged, not masked.", "DESIGN.md section 5 C04"),
+ "C05": ("model_checking", "explicit-state BFS over fill/delete/refill cycles on nearly-full volumes; FAT scan vs reachable set, capacity arithmetic",
+         "All histories of create/fill/write/close/delete/mkdir up to the bound on volumes with 0..3 free clusters (slack and exact FATs): accepted bytes must equal free clusters x cluster size, the error must be an out-of-space error, everything accepted reads back, and at quiescent points clusters in use = union of live chains (differentially per operation).",
+         MC_NOTE, "DESIGN.md section 5 C05"),
  "C15": ("exploration", "exhaustive input enumeration: full product of valid layout parameters and single+pair boundary mutations, run through the real mount path",
          "Every layout in the stated product is formatted by an independent formatter and must be mounted, listed and read back exactly by the crate; every boundary value of every MBR/BPB/FSInfo field (singly and in pairs) and every constant-byte sector must make open_raw_volume return without panic under overflow checks.",
          "Trusted base: mkfs (independent formatter) and refat (its images are cross-checked by the self-test). Between grid points nothing is claimed.", "DESIGN.md section 5 C15"),
+ "C16": ("model_checking", "explicit-state BFS over allocation/truncation/deletion histories on 1- and 2-FAT volumes and five FSInfo variants, with a twin-volume differential",
+         "After every returned call the FAT copies must be byte-identical; after each flush/close on FAT32 the stored free count must have moved by exactly the FAT-scan delta (unknown stays unknown), the stored hint must be unknown or in range, and every history on a stale/out-of-range record must return what it returns on the twin volume with a correct record.",
+         MC_NOTE, "DESIGN.md section 5 C16"),
  "C17": ("model_checking", "exhaustive enumeration of fragment/code-unit classes for the decoder and explicit-state exploration of all directory slot sequences up to a length bound for the listing state machine",
          "LfnBuffer is fed every fragment combination over code-unit classes at fragment boundaries and every buffer size and compared with String::from_utf16_lossy; every slot sequence up to the bound over an alphabet of fragments/short entries/deleted/label slots is listed by the real iterate_dir_lfn and compared with the specification's LFN matching rule; arbitrary slot bytes must not panic.",
          "Trusted base: refat's LFN matcher and std's UTF-16 decoder. Tolerated: deleted slots inside/after a run and checksum differences on non-first fragments (the property is silent).", "DESIGN.md section 5 C17"),
